@@ -153,3 +153,8 @@ func VerifDrainInternalTransport(t *InternalTransport) [][]byte {
 func VerifReadTlvDatagrams(reader io.Reader, onFrame func([]byte), ignoreError func(error) bool) error {
 	return readTlvDatagrams(reader, onFrame, ignoreError)
 }
+
+// VerifSetNextSequence sets the sequence number that the link service gives its next fragment.
+func (l *NDNLPLinkService) VerifSetNextSequence(seq uint64) {
+	l.nextSequence = seq
+}
